@@ -117,6 +117,11 @@ def enable(on=True):
                 pass
 
 
+class Deadlock(Exception):
+    """a controlled thread waits for a lock that the harness thread - which is itself waiting for the controlled
+    threads to finish - was left holding: no schedule can make progress (a logical verdict, not a time-out)"""
+
+
 class SchedLock:
     """RLock with the scheduler's cooperation: a thread that cannot take it gives the token away."""
 
@@ -124,13 +129,21 @@ class SchedLock:
         self._real = threading.RLock()
         self.owner = None      # tid of the controlled thread holding it
         self.depth = 0
+        self.foreign = 0       # depth held by the (uncontrolled) harness thread
+        self.foreign_ident = None
 
     def acquire(self, blocking=True, timeout=-1):
         s = _current["sched"]
         tid = getattr(_tls, "tid", None)
         if s is None or tid is None:
-            return self._real.acquire(blocking, timeout)
+            r = self._real.acquire(blocking, timeout)
+            if r and s is None:
+                self.foreign += 1
+                self.foreign_ident = threading.get_ident()
+            return r
         while not self._real.acquire(False):
+            if self.foreign > 0 and self.owner is None and self.foreign_ident == threading.main_thread().ident:
+                raise Deadlock("the library's lock is still held by the thread that ran the earlier (failed) build")
             s.blocked(tid, self.owner)
         self.owner = tid
         self.depth += 1
@@ -141,6 +154,8 @@ class SchedLock:
             self.depth -= 1
             if self.depth == 0:
                 self.owner = None
+        elif self.foreign > 0 and threading.get_ident() == self.foreign_ident:
+            self.foreign -= 1
         self._real.release()
 
     def __enter__(self):
@@ -166,6 +181,36 @@ class _ThreadingShim:
 
     def __getattr__(self, name):
         return getattr(self._real, name)
+
+
+_RLOCK_T = type(threading.RLock())
+
+
+def held_at_quiescence(release=True):
+    """Invariant at a quiescent point: no lock of the library may be held by the calling thread when none of the
+    library's functions is running on it.  Returns the names of module-level ovld.* locks found held (and lets go of
+    them when `release`, so that one leak does not poison every later case of this process)."""
+    found = []
+    me = threading.get_ident()
+    for name, mod in list(sys.modules.items()):
+        if not (name == "ovld" or name.startswith("ovld.")) or mod is None:
+            continue
+        for k, v in list(vars(mod).items()):
+            if isinstance(v, SchedLock):
+                if v.foreign > 0 and v.foreign_ident == me:
+                    found.append(f"{name}.{k}")
+                    while release and v.foreign > 0:
+                        v.release()
+            elif isinstance(v, _RLOCK_T):
+                try:
+                    owned = v._is_owned()
+                except Exception:  # noqa: BLE001
+                    owned = False
+                if owned:
+                    found.append(f"{name}.{k}")
+                    while release and v._is_owned():
+                        v.release()
+    return sorted(set(found))
 
 
 def patch_lock():
